@@ -9,5 +9,5 @@ CONSTANTS
   Cfgs = {1, 2, 3, 4, 5, 6, 7}
   UrlKinds = {1, 2}
   Targets = {1, 2, 3, 4, 5, 6, 7, 8, 9, 10, 11, 12, 13, 14, 15, 16, 17}
-INVARIANTS NoViol NoCrash Reg Groups Allocs Ledger Search
+INVARIANTS NoViol NoCrash Reg Groups Allocs Ledger Search Announce
 CHECK_DEADLOCK FALSE
